@@ -779,7 +779,9 @@ class MaterialIndexer(Indexer):
             self.empty()
             other_data = other.data
             phase = other.phase
-            if phase not in phase_indexer: self._expand_phases(phase)
+            if phase not in phase_indexer: 
+                self._expand_phases(phase)
+                phase_indexer = self._phase_indexer
             phase_index = phase_indexer(phase)
             if self.chemicals is other.chemicals:
                 self.data.rows[phase_index].copy_like(other_data)
